@@ -62,6 +62,10 @@ func alignLoops(body ast.Node, fc *FuncContract) map[token.Pos]int {
 			src = append(src, srcLoop{l.Pos(), t})
 		case *ast.RangeStmt:
 			src = append(src, srcLoop{l.Pos(), "range " + exprString(l.X)})
+		case *ast.LabeledStmt:
+			if gotoLabels(body)[l.Label.Name] {
+				src = append(src, srcLoop{l.Pos(), l.Label.Name + ":"})
+			}
 		}
 		return true
 	})
@@ -108,15 +112,33 @@ func alignLoops(body ast.Node, fc *FuncContract) map[token.Pos]int {
 func loopIndex(body ast.Node) map[token.Pos]int {
 	m := map[token.Pos]int{}
 	n := 0
+	labels := gotoLabels(body)
 	ast.Inspect(body, func(nd ast.Node) bool {
-		switch nd.(type) {
+		switch l := nd.(type) {
 		case *ast.ForStmt, *ast.RangeStmt:
 			n++
 			m[nd.Pos()] = n
+		case *ast.LabeledStmt:
+			if labels[l.Label.Name] {
+				n++
+				m[nd.Pos()] = n
+			}
 		}
 		return true
 	})
 	return m
+}
+
+// gotoLabels returns the labels that are targets of goto statements in body.
+func gotoLabels(body ast.Node) map[string]bool {
+	out := map[string]bool{}
+	ast.Inspect(body, func(nd ast.Node) bool {
+		if b, ok := nd.(*ast.BranchStmt); ok && b.Tok == token.GOTO && b.Label != nil {
+			out[b.Label.Name] = true
+		}
+		return true
+	})
+	return out
 }
 
 // findBoxed marks local variables whose address is taken (other than as out-parameters of modelled library calls).
@@ -382,7 +404,10 @@ func (ex *Exec) callsiteChecks(e *ast.CallExpr, args []Val) {
 	if e == nil || ex.fc == nil || len(ex.fc.Callsites) == 0 || len(ex.code) > 1 {
 		return
 	}
-	txt := noSpace(exprString(e))
+	txt := noSpace(ex.nodeText(e))
+	if txt == "" {
+		txt = noSpace(exprString(e))
+	}
 	for _, cc := range ex.fc.Callsites {
 		if cc.Stmt || !strings.HasPrefix(txt, noSpace(cc.CallText)) {
 			continue
@@ -403,7 +428,10 @@ func (ex *Exec) callsiteChecks(e *ast.CallExpr, args []Val) {
 		if j := strings.Index(lab, ":"); j == 1 {
 			kind, lab = lab[:1], lab[2:]
 		}
-		g := ex.specBool(sc, cc.Req)
+		g, ok := ex.specTry(sc, cc.Req)
+		if !ok {
+			lab += ":not-evaluable"
+		}
 		ex.assert(kind, "callsite["+lab+"]", g)
 	}
 }
@@ -440,7 +468,11 @@ func (ex *Exec) stmtChecks(s ast.Stmt) {
 		if j := strings.Index(lab, ":"); j == 1 {
 			kind, lab = lab[:1], lab[2:]
 		}
-		ex.assert(kind, "at["+lab+"]", ex.specBool(sc, cc.Req))
+		g, ok := ex.specTry(sc, cc.Req)
+		if !ok {
+			lab += ":not-evaluable"
+		}
+		ex.assert(kind, "at["+lab+"]", g)
 	}
 }
 
@@ -534,6 +566,9 @@ func stmtCount(n ast.Node) int {
 // callValue calls a function value.
 func (ex *Exec) callValue(e *ast.CallExpr, fun ast.Expr, fv Val, sig *types.Signature, args []Val, resTypes []types.Type) []Val {
 	ex.callsiteChecks(e, args)
+	if c, ok := ex.closures[fv.T.String()]; ok && c.native != nil {
+		return c.native(args)
+	}
 	if c, ok := ex.closures[fv.T.String()]; ok {
 		name := c.name
 		if name == "" {
@@ -809,8 +844,12 @@ func (ex *Exec) callByContract(fc *FuncContract, callee *types.Func, sig *types.
 		}
 		sc.vars[gn] = Val{gv.T, gt}
 	}
-	// preconditions
+	// preconditions (for a function that returns a sequence, "requires" and "modifies" describe the start and the effects of an
+	// enumeration of that sequence, not the call that creates it)
 	for i, c := range fc.Requires {
+		if fc.IterBody {
+			break
+		}
 		lab := c.Label
 		if lab == "" {
 			lab = fmt.Sprint(i + 1)
@@ -883,7 +922,9 @@ func (ex *Exec) callByContract(fc *FuncContract, callee *types.Func, sig *types.
 		}
 	}
 	// frame: modifies and allocates
-	ex.applyFrame(sc, fc.Modifies, fc.Allocates, pk)
+	if !fc.IterBody {
+		ex.applyFrame(sc, fc.Modifies, fc.Allocates, pk)
+	}
 	for _, v := range out {
 		if isPointer(v.Typ) || isInterface(v.Typ) {
 			ex.assume(Lt(v.T, ex.get(ex.st, "$alloc")))
@@ -1108,6 +1149,12 @@ func (ex *Exec) specLvalue(sc *specCtx, e ast.Expr) (string, *T, bool) {
 // callParamContract applies the contract of a function-typed parameter at a call site.
 func (ex *Exec) callParamContract(pc *ParamContract, name string, sig *types.Signature, args []Val, resTypes []types.Type) []Val {
 	sc := ex.specHere(ex.curPos)
+	// entry(...): the entry of the innermost enclosing loop, or of the function when there is none
+	if n := len(ex.entryStack); n > 0 {
+		sc.entry = ex.entryStack[n-1]
+	} else {
+		sc.entry = ex.oldState
+	}
 	for i, n := range pc.Params {
 		if i < len(args) {
 			sc.vars[n] = args[i]
@@ -1118,7 +1165,11 @@ func (ex *Exec) callParamContract(pc *ParamContract, name string, sig *types.Sig
 		if lab == "" {
 			lab = fmt.Sprint(i + 1)
 		}
-		ex.assert("F", "callsite["+name+"]-requires["+lab+"]", ex.specBool(sc, c))
+		g, ok := ex.specTry(sc, c)
+		if !ok {
+			lab += ":not-evaluable"
+		}
+		ex.assert("F", "callsite["+name+"]-requires["+lab+"]", g)
 	}
 	old := ex.st.clone()
 	pkT := ex.pkg.Types
@@ -1370,4 +1421,18 @@ func (ex *Exec) constString(e ast.Expr) (string, bool) {
 		return constant.StringVal(tv.Value), true
 	}
 	return "", false
+}
+
+// calleeOf returns the statically known function called by e, if any.
+func (ex *Exec) calleeOf(e *ast.CallExpr) *types.Func {
+	f, _ := typeutil.Callee(ex.info(), e).(*types.Func)
+	return f
+}
+
+// contractKey is the key under which a function's contract is filed.
+func (ex *Exec) contractKey(f *types.Func) string {
+	if f.Pkg() == nil {
+		return funcKey(f)
+	}
+	return f.Pkg().Path() + "." + funcKey(f.Origin())
 }
